@@ -121,6 +121,11 @@ class UserCriteria(Logged):
     ACCEPT = [True, 1, np.True_, "yes"]
     REJECT = [False, 0, np.False_, None, 0.0]
 
+    def __len__(self):
+        # a criteria that keeps a log of its decisions and reports how many there are: empty, hence falsy, until the
+        # first trial (only for instances with an odd tag); nothing in the protocol lets the driver care
+        return self.calls if self.tag % 2 else 1
+
     def evaluate(self, context):
         self.calls += 1
         self.k += 1
